@@ -44,6 +44,29 @@ type File struct {
 	CRLF       bool
 	Comment    bool
 	MidComment bool
+	// LongComment > 0: the header carries one more comment line of exactly that many bytes (without
+	// the line ending) of printable ascii (LongCommentText); LongCommentEnd puts it just before
+	// end_header instead of just after the format line.
+	LongComment    int  `json:",omitempty"`
+	LongCommentEnd bool `json:",omitempty"`
+}
+
+// LongCommentText is the long comment line (no line ending): "comment " followed by printable ascii
+// (0x21..0x7e words separated by single blanks), a pure function of the length.
+func LongCommentText(n int) string {
+	b := []byte("comment ")
+	x := uint32(n)*2654435761 + 12345
+	for word := 0; len(b) < n; {
+		x = x*1664525 + 1013904223
+		if word >= 3 && (x>>24)%9 == 0 && len(b) < n-1 {
+			b = append(b, ' ')
+			word = 0
+			continue
+		}
+		b = append(b, byte(0x21+(x>>16)%94))
+		word++
+	}
+	return string(b[:n])
 }
 
 type GroupDef struct {
@@ -98,7 +121,15 @@ type Opts struct {
 	MinVerts, MaxVerts      int
 	ForceFaces              bool
 	NonZero                 bool // every value non-zero (so fabricated zeros are visible)
+	// Wide (opt-in, draws nothing when false): in about 1 file of 30 the vertex element carries
+	// 40/100/250/600 more unrecognised scalars extra_3.. of ONE drawn type (ascii lines of 0.2..15 KiB,
+	// always below 60 KiB; binary records of 40..4800 bytes more) and the file has 1..6 vertices;
+	// independently, in about 1 file of 30, one header comment line of 300/1100/5000 bytes.
+	Wide bool
 }
+
+// WideExtras is the least number of unrecognised scalars of a file of the wide class.
+const WideExtras = 40
 
 // Gen draws a file description from the specification's grammar.
 func Gen(t *rapid.T, o Opts) File {
@@ -137,6 +168,34 @@ func Gen(t *rapid.T, o Opts) File {
 			}
 		}
 		f.Props = append(f.Props, Prop{Name: fmt.Sprintf("extra_%d", k), Type: typ, Alias: rapid.SampledFrom(Aliases[typ]).Draw(t, "alias")})
+	}
+	// (rapid's IntRange favours the ends of its range - IntRange(0,29)==0 is met in 1 case of 9 -,
+	// a full-width draw modulo 30 compared with a non-minimal residue is met in 1 of 28; measured)
+	if o.Wide && rapid.Uint64().Draw(t, "wide")%30 == 7 {
+		// weighted towards the small numbers: loading a file with n unrecognised scalars costs the
+		// reader n^2/2 map insertions (one copy of the attribute map per attribute): ~6 ms at n = 250,
+		// ~35 ms at n = 600 (measured shares, the draw favours small residues: 40: 51 %, 100: 29 %, 250: 14 %, 600: 6 %)
+		n := 40
+		switch r := rapid.Uint64().Draw(t, "wideExtras") % 100; {
+		case r >= 91:
+			n = 600
+		case r >= 70:
+			n = 250
+		case r >= 30:
+			n = 100
+		}
+		typ := rapid.SampledFrom([]string{"uchar", "int", "float", "double"}).Draw(t, "wideType")
+		if o.ExcludeAsciiUcharScalar && typ == "uchar" && f.Format == "ascii" {
+			typ = "int"
+			if o.Excluded != nil {
+				*o.Excluded++
+			}
+		}
+		alias := rapid.SampledFrom(Aliases[typ]).Draw(t, "alias")
+		for k := 0; k < n; k++ {
+			f.Props = append(f.Props, Prop{Name: fmt.Sprintf("extra_%d", 3+k), Type: typ, Alias: alias})
+		}
+		o.MinVerts, o.MaxVerts = 1, 6 // keeps such a case cheap
 	}
 	f.Props = rapid.Permutation(f.Props).Draw(t, "order")
 	nv := rapid.IntRange(o.MinVerts, o.MaxVerts).Draw(t, "nv")
@@ -181,6 +240,10 @@ func Gen(t *rapid.T, o Opts) File {
 	f.CRLF = rapid.Bool().Draw(t, "crlf")
 	f.Comment = rapid.Bool().Draw(t, "comment")
 	f.MidComment = rapid.Bool().Draw(t, "midcomment")
+	if o.Wide && rapid.Uint64().Draw(t, "longComment")%30 == 7 {
+		f.LongComment = rapid.SampledFrom([]int{300, 1100, 5000}).Draw(t, "longCommentLen")
+		f.LongCommentEnd = rapid.Bool().Draw(t, "longCommentEnd")
+	}
 	return f
 }
 
@@ -214,6 +277,9 @@ func (f File) Encode() Encoded {
 	}
 	var hdr strings.Builder
 	hdr.WriteString("ply" + eol + "format " + f.Format + " 1.0" + eol)
+	if f.LongComment > 0 && !f.LongCommentEnd {
+		hdr.WriteString(LongCommentText(f.LongComment) + eol)
+	}
 	if f.Comment {
 		hdr.WriteString("comment made by reference encoder" + eol + "obj_info some info 123" + eol)
 	}
@@ -236,6 +302,9 @@ func (f File) Encode() Encoded {
 		default:
 			hdr.WriteString(pi)
 		}
+	}
+	if f.LongComment > 0 && f.LongCommentEnd {
+		hdr.WriteString(LongCommentText(f.LongComment) + eol)
 	}
 	hdr.WriteString("end_header" + eol)
 	enc := Encoded{HeaderLen: hdr.Len()}
